@@ -277,6 +277,7 @@ func determinismRule(c *Ctx, r *Report, rule string, roots []*ssa.Function, labe
 func checkC04(c *Ctx, r *Report, tier string) {
 	round5(c, r, "C04")
 	round6(c, r, "C04")
+	round7(c, r, "C04")
 	r.Rule("C04.R1", "the apply tree is a function of the log: no randomness / time / fresh-uuid / environment source is reachable from a partition apply root; the level of every insert in that tree comes from the log entry or from the replaced vertex, and every proposer sets it", 5)
 	r.Rule("C04.R2", "single-threaded apply: calls through the registered process / restore callbacks are plain calls made by the Ready loop, by Start before the loop, or by another apply root", 4)
 	r.Rule("C04.R3", "what apply mutates, the snapshot captures and restore resets (partition consumer; frozen table of replicated fields)", 6)
@@ -466,6 +467,8 @@ func levelFromLog(c *Ctx, f *ssa.Function, v ssa.Value, reach map[*ssa.Function]
 func checkC08(c *Ctx, r *Report, tier string) {
 	round5(c, r, "C08")
 	round6(c, r, "C08")
+	round7(c, r, "C08")
+	round8(c, r, "C08")
 	r.Rule("C08.R1", "writer/reader grammar agreement for every stream pair", 4)
 	r.Rule("C08.R2", "full reads: no direct Read on an io.Reader whose byte count is discarded (io.ReadFull / binary.Read are exact)", 1)
 	r.Rule("C08.R3", "length fields cannot truncate: a len(…) narrowed to uint8/uint16 that is written to the stream needs a dominating bound check (uint32 counts are bounded by memory)", 3)
